@@ -499,4 +499,92 @@ Proof.
   subst r. unfold acc_tree. rewrite !shape_t_node, O. now rewrite S.
 Qed.
 
+
+(* ------------------------------------------------------------------ result creation: the metadata of a new result *)
+Definition meta_core (m : meta) : list nat * option dev * bool := (m_bs m, m_dev m, m_lock m).
+
+Lemma set_item_meta_core (r : racc) k (v : tree) r' :
+  set_item A o r k v = Ok r' ->
+  meta_core (r_meta A r') = meta_core (r_meta A r) /\ (o_checked o = true -> r_meta A r' = r_meta A r).
+Proof.
+  unfold set_item. intro H. apply bind_ok in H. destruct H as ([r1 v1] & Hv & H).
+  assert (Hm : meta_core (r_meta A r1) = meta_core (r_meta A r) /\ (o_checked o = true -> r_meta A r1 = r_meta A r)).
+  { destruct (o_checked o); [inv Hv; auto|]. split; [|discriminate]. unfold validate in Hv.
+    destruct (meta_of A v); [|now inv Hv]. apply bind_ok in Hv. destruct Hv as (x & _ & Hv).
+    destruct (nil_b (m_bs (r_meta A r))); [now inv Hv|].
+    match type of Hv with match meta_of A ?y with _ => _ end = _ => destruct (meta_of A y) as [vm|] end; [|now inv Hv].
+    destruct (m_names (r_meta A r)).
+    - destruct (list_eqb ostr_eqb (firstn_names (List.length (m_bs (r_meta A r))) vm) l); [now inv Hv|].
+      destruct (negb (refine_ok (names_list vm) l)); [discriminate|].
+      destruct (negb (Nat.eqb (List.length l) (List.length (m_bs vm)))); [discriminate|]. now inv Hv.
+    - destruct (m_names vm); now inv Hv. }
+  assert (Hfin : r_meta A r' = r_meta A r1).
+  { destruct (if o_inplace o then fget A (r_f A r) k else None) as [d|].
+    - destruct d as [s x|od dp dm|od dm df]; destruct v1 as [s1 x1|ov vp vm|ov vm vf]; try discriminate.
+      + now inv H.
+      + destruct s1; discriminate.
+      + destruct (m_lock dm); [discriminate|]. now inv H.
+      + destruct od; [|discriminate]. destruct ov; [|discriminate]. destruct (Z.eqb z z0); [|discriminate]. now inv H.
+    - destruct (m_lock (r_meta A r1)); [discriminate|]. now inv H. }
+  rewrite Hfin. exact Hm.
+Qed.
+
+Lemma apply_items_meta : forall items con prefix sm sf others out names acc any res any',
+  apply_items A o fn con prefix sm sf others out names items acc any = Ok (res, any') ->
+  forall a', res = Some a' ->
+    let m0 := match acc with Some a => r_meta A a | None => result_meta o sm names end in
+    meta_core (r_meta A a') = meta_core m0 /\ (o_checked o = true -> r_meta A a' = m0).
+Proof.
+  induction items as [|k item rest IH]; intros con prefix sm sf others out names acc any res any' H a' Hr.
+  - cbn [apply_items] in H. inv H. cbn zeta. auto.
+  - cbn [apply_items] in H. apply bind_ok in H. destruct H as (t & _ & Hrun).
+    destruct t as [v|].
+    + apply bind_ok in Hrun. destruct Hrun as (acc' & Hset & Hrun).
+      destruct (set_item_meta_core _ k v acc' Hset) as (M1 & M2).
+      destruct (IH con prefix sm sf others out names (Some acc') true res any' Hrun a' Hr) as (N1 & N2).
+      cbn zeta in *. destruct acc as [a|]; cbn [make_result r_meta] in *.
+      * split; [congruence|]. intro Hc. rewrite (N2 Hc). now apply M2.
+      * split; [congruence|]. intro Hc. rewrite (N2 Hc). now apply M2.
+    + now apply (IH con prefix sm sf others out names acc any res any' Hrun).
+Qed.
+
+(* a result that is a new object: batch size and device as requested (else as self's), unlocked unless propagate_lock
+   and self is locked; its dim names — when nothing is validated on the way in (checked) — are the ones given, none
+   when the batch size is overridden, else self's *)
+Theorem new_result_meta : forall con propagate so sm sf others names ob m f,
+  o_inplace o = false ->
+  front A o fn con propagate (Node so sm sf) others None names = Ok (Some (Node ob m f)) ->
+  m_bs m = match o_bs o with Some b => b | None => m_bs sm end
+  /\ m_dev m = match o_dev o with Some d => d | None => m_dev sm end
+  /\ m_lock m = (propagate && m_lock sm)
+  /\ (o_checked o = true ->
+        m_names m = match names with Some n => n | None => match o_bs o with Some _ => None | None => m_names sm end end).
+Proof.
+  intros con propagate so sm sf others names ob m f Hi H.
+  cbn [front] in H. apply bind_ok in H. destruct H as (r0 & Hnest & H).
+  unfold apply_nest in Hnest. apply bind_ok in Hnest. destruct Hnest as (init & Hinit & Hnest).
+  apply bind_ok in Hnest. destruct Hnest as ([res any'] & Hitems & Hfin). cbn [fst snd] in Hfin.
+  unfold level_init in Hinit. rewrite Hi in Hinit. inv Hinit.
+  pose proof (apply_items_meta sf con [] sm sf others None names None false res any' Hitems) as HM. cbn zeta in HM.
+  assert (Hr0 : forall ob0 m0 f0, r0 = Some (Node ob0 m0 f0) ->
+            meta_core m0 = meta_core (result_meta o sm names) /\ (o_checked o = true -> m0 = result_meta o sm names)).
+  { intros ob0 m0 f0 ->. injection Hfin as Hfin. unfold level_finish in Hfin.
+    assert (E : Node ob0 m0 f0 = acc_tree A (match res with Some a => a | None => make_result A o sm names end)).
+    { destruct (o_fe o) as [[|]|].
+      - destruct any'; now inv Hfin.
+      - now inv Hfin.
+      - destruct (negb any' && negb (f_is_empty A sf)); now inv Hfin. }
+    unfold acc_tree in E. injection E as _ E2 _. rewrite E2.
+    destruct res as [a|]; [now apply HM|]. cbn [make_result r_meta]. auto. }
+  injection H as H. rewrite Hi in H. cbn [negb] in H. rewrite andb_true_r in H.
+  destruct (propagate && m_lock sm) eqn:Ep.
+  - destruct r0 as [[s x|ob0 p0 m0|ob0 m0 f0]|]; cbn [option_map t_lock] in H; try discriminate.
+    injection H as _ Em _. subst m. destruct (Hr0 ob0 m0 f0 eq_refl) as (C1 & C2). unfold meta_core, result_meta in C1.
+    cbn [m_bs m_dev m_lock m_names set_lock] in *. injection C1 as B D L. repeat split; try assumption.
+    intro Hc. rewrite (C2 Hc). reflexivity.
+  - subst r0. destruct (Hr0 ob m f eq_refl) as (C1 & C2). unfold meta_core, result_meta in C1.
+    cbn [m_bs m_dev m_lock] in C1. injection C1 as B D L. repeat split; try assumption.
+    intro Hc. rewrite (C2 Hc). reflexivity.
+Qed.
+
 End FrameP.
